@@ -16,6 +16,7 @@ CONSTANTS
     IteOn = FALSE
     CallOn = {"sub2"}
     AugOn = {}
+    PassOn = FALSE
     ChainOn = FALSE
     LoopOn = FALSE
     MaxToks = 7
